@@ -8,7 +8,8 @@ package interpreter
 //      from well-formed pushes of boundary lengths;
 //  (c) the two tokenisers (bscript.DecodeParts and the interpreter's parser) agree on push boundaries for those scripts;
 //  (d) hex and JSON renderings convert back to the same bytes; ASM of non-data scripts built from non-push opcodes and
-//      minimal multi-byte pushes converts back to the same bytes.
+//      minimal multi-byte pushes converts back to the same bytes - for four opcode sequences and for EVERY non-push opcode
+//      value (0x00, 0x4f..0xff) placed around a 20-byte push.
 // BOUNDED: the enumerations above only. Not a proof.
 
 import (
@@ -170,6 +171,26 @@ func TestBoundedC13Codecs(t *testing.T) {
 		s3, err := bscript.NewFromASM(asm)
 		if err != nil || !bytes.Equal(*s3, ops) {
 			t.Fatalf("ASM round trip of %x gives %x (err %v)", ops, s3, err)
+		}
+		n++
+	}
+	// ASM of every non-push opcode value (0x00, 0x4f..0xff: exhaustive over single opcodes), each twice in a non-data script
+	// around a minimal 20-byte push
+	for o := 0; o <= 0xff; o++ {
+		if o >= 0x01 && o <= 0x4e {
+			continue
+		}
+		s := &bscript.Script{}
+		_ = s.AppendOpcodes(bscript.OpDUP, byte(o))
+		_ = s.AppendPushData(bytes.Repeat([]byte{0xc3}, 20))
+		_ = s.AppendOpcodes(byte(o), bscript.OpEQUALVERIFY)
+		asm, err := s.ToASM()
+		if err != nil {
+			t.Fatalf("opcode 0x%02x: ToASM: %v", o, err)
+		}
+		s3, err := bscript.NewFromASM(asm)
+		if err != nil || !bytes.Equal(*s3, *s) {
+			t.Fatalf("opcode 0x%02x: ASM round trip of %x through %q gives %x (err %v)", o, []byte(*s), asm, s3, err)
 		}
 		n++
 	}
